@@ -85,7 +85,7 @@ func plan(thorough bool) tierPlan {
 		},
 		graphs: []graphRun{
 			{"g_w2_small.cfg", 3, 0, 40, 40 * time.Minute},
-			{"g_w3_k2.cfg", 4, 5000, 50, 40 * time.Minute},
+			{"g_w3_small.cfg", 4, 4000, 50, 40 * time.Minute},
 		},
 		sims: []simRun{
 			{"s_w3.cfg", 3, 170, 55, 40 * time.Minute},
@@ -335,6 +335,11 @@ func Run(ctx *vrun.Ctx) error {
 		return runReplayFile(ctx, ctx.Replay)
 	}
 	pl := plan(ctx.Thorough)
+	if os.Getenv("VERIF_VB_SKIP_EXHAUSTIVE") != "" {
+		// development aid for seeded-change experiments: the non-recording
+		// exhaustive runs never touch the code under test
+		pl.exhaustive = nil
+	}
 	ctx.Ev.Coverage.Rule = "TLC: exhaustive breadth-first search of VersionBits.tla for the listed configurations (every tree / vote / timestamp / parameter / query-order combination within the constants). " +
 		"Replay: covering paths of the dumped state graph plus random simulation behaviours, each stepped through a real BlockChain (ffldb) with synthetic deployment parameters; " +
 		"a case is one comparison of a value reported by the real code with the specification's property layer; distinct_nontrivial counts distinct (expected value, position in the window, entry point) classes hit."
